@@ -19,13 +19,15 @@ Print Assumptions c20_frames_bounded.
 
 (* The tool / task / job maps grow with the number of ids (by design).  What does hold, for every frame sequence:
    at most one entry per DISTINCT id for which a creating frame was seen (tool_started; tool_task_spawned or
-   tool_task_status; continuity_job_spawned or _ended), no duplicate keys, and the text the state holds is within
+   tool_task_status; continuity_job_spawned or _ended), the artifact set holds at most the distinct artifact ids
+   the frames carried, no duplicate keys, and the text the state holds is within
    the output cap plus 8192 bytes for each of the 2 (tool) / 3 (task) preview slots of those ids. *)
 Theorem c20_maps_bounded_by_distinct_ids : forall (max_frames : nat) (max_out : N) (af : bool) (evs : list ev),
   let s := run_tui max_frames max_out af evs in
   (nlen (st_tools s) <= distinct (tool_ids evs) /\ NoDup (keys (st_tools s)))
   /\ (nlen (st_tasks s) <= distinct (task_ids evs) /\ NoDup (keys (st_tasks s)))
   /\ (nlen (st_jobs s) <= distinct (job_ids evs) /\ NoDup (keys (st_jobs s)))
+  /\ (nlen (st_artifacts s) <= distinct (art_ids evs) /\ NoDup (keys (st_artifacts s)))
   /\ held_bytes s <= N.max max_out 1 + 8192 * (2 * distinct (tool_ids evs) + 3 * distinct (task_ids evs)).
 Proof. exact tui_maps_bounded. Qed.
 Print Assumptions c20_maps_bounded_by_distinct_ids.
